@@ -308,6 +308,24 @@ def gen_spec(seed: int, config: str | None = None) -> dict:
     # process creation by fork(): a node's process is a copy of another node's process taken after that one has done k
     # of its operations - module-level state of the library (id counters, caches) and, optionally, the parent's queue
     # object come along.  Drawn from a stream of its own so that everything else about the spec stays what it was.
+    # a backlog: many more packets than any batch size, burst length or "every n-th" counter a reader might have, already
+    # in the file when a reader gets going (a consumer that was down for a while).  From a stream of its own.
+    bk = random.Random(derive(seed, "backlog"))
+    if not inproc and bk.random() < 0.04:
+        total = bk.choice([64, 65, 70, 100, 128, 129, 200])
+        w = bk.choice([n for n in nodes if n["role"] == "writer"] or senders)
+        serial_next = 1 + max([op["serial"] for op in send_ops({"nodes": nodes})] or [-1])
+        for _ in range(max(0, total - len(send_ops({"nodes": nodes})))):
+            w["script"].append({"op": "send", "to": bk.choice([None, "r0"]), "data": [serial_next, bk.choice(["", "x", "job", 7, None])], "serial": serial_next})
+            serial_next += 1
+        for n in nodes:
+            if n["role"] == "reader" and bk.random() < 0.75:
+                n["script"].insert(0, {"op": "await_writers"})
+                if n.get("mode") == "async" and bk.random() < 0.7:
+                    # taken up again in several short stretches, each ended by cancelling the consumer task
+                    n["script"][1:1] = [{"op": "run", "ns": bk.choice([0, 0, 1000, 10**6])} for _ in range(bk.choice([1, 2, 3]))]
+        spec["backlog"] = total
+        knobs["read_chunk"] = max(knobs["read_chunk"], 64) if knobs["read_chunk"] else knobs["read_chunk"]
     frk = random.Random(derive(seed, "fork"))
     if not inproc and len(nodes) >= 2 and frk.random() < 0.2:
         for _ in range(frk.choice([1, 1, 2])):
@@ -1013,6 +1031,9 @@ class NodeRunner:
                 if self.hist.partial_now:
                     sim.probe("receive_started_while_file_cut")
                 self.do_recv({"op": "recv"})
+            elif kind == "await_writers":
+                self.wait_writers()
+                self.sim.probe("reader_started_with_backlog")
             elif kind == "fork":
                 import pickle
 
